@@ -253,20 +253,22 @@ Definition find_media_by_track_id (n : N) (tid : str) : mres :=
 
 Definition is_abs_control (c : str) : bool := has_prefix s_rtsp_pfx c || has_prefix s_rtsps_pfx c.
 
-(* findMediaByURL(medias, path, query, u): medias given by their control attributes *)
+(* findMediaByURL(medias, path, query, u): medias given by their control attributes.
+   url_hit = the body of the loop for one media *)
+Definition url_hit (c pa q : str) (u : url) : bool :=
+  let us := print u in
+  if is_abs_control c then str_eqb c us else
+  let u1 := if negb (is_nil q)
+            then mkUrl (scheme u) None (host u) pa [] false (q ++ c_slash :: c)
+            else mkUrl (scheme u) None (host u) (pa ++ c_slash :: c) [] false q in
+  let u2 := mkUrl (scheme u) None (host u) (pa ++ c_slash :: c) [] false q in
+  str_eqb (print u1) us || str_eqb (print u2) us.
+
 Fixpoint find_media_by_url_from (k : N) (controls : list str) (pa q : str) (u : url) : mres :=
   match controls with
   | [] => MNil
   | c :: rest =>
-    let us := print u in
-    let hit :=
-      if is_abs_control c then str_eqb c us else
-      let u1 := if negb (is_nil q)
-                then mkUrl (scheme u) None (host u) pa [] false (q ++ c_slash :: c)
-                else mkUrl (scheme u) None (host u) (pa ++ c_slash :: c) [] false q in
-      let u2 := mkUrl (scheme u) None (host u) (pa ++ c_slash :: c) [] false q in
-      str_eqb (print u1) us || str_eqb (print u2) us in
-    if hit then MFound k else find_media_by_url_from (k + 1) rest pa q u
+    if url_hit c pa q u then MFound k else find_media_by_url_from (k + 1) rest pa q u
   end.
 Definition find_media_by_url := find_media_by_url_from 0.
 
